@@ -551,6 +551,9 @@ def run(run, model):
     run.try_rule(r14_12, model)
     run.try_rule(r14_14, model)
     run.try_rule(r14_17, model)
+    # a stale core accepted at link behaves unlike whole-program compilation of the current sources (shared with C15 R15.4)
+    from rules import c15 as _c15
+    run.try_rule(_c15.r15_4, model)
     run.try_rule(r14_15, model)
     run.try_rule(r14_16, model)
     run.try_rule(r14_2, model)
